@@ -33,6 +33,26 @@ def spec(W, S, A):
     return shells
 
 
+def exp_guarded(W, label, fn, what):
+    """call fn; in the symbolic world every argument the code hands to
+    np.exp inside must be provably below the float64 overflow threshold,
+    whatever the scale of the likelihood (the estimators normalise by the
+    maximum first).  A counterexample is a likelihood scale; on the real code
+    it shows as an estimator that is inf / nan."""
+    if not W.symbolic:
+        return call(W, label, fn)
+    W.np.EXP_ARGS = []
+    try:
+        ok, r = call(W, label, fn)
+    finally:
+        args, W.np.EXP_ARGS = W.np.EXP_ARGS, None
+    for k, a in enumerate(args):
+        W.require(a <= 709, 'C02:exp-argument-cannot-overflow',
+                  '%s: argument %d of np.exp is not bounded by the '
+                  'normalisation' % (what, k))
+    return ok, r
+
+
 def accessors(W, cfg):
     S, like = st.build(W, cfg)
     which = cfg.get('which', ['volume', 'log_z', 'weights', 'n_eff'])
@@ -91,7 +111,8 @@ def accessors(W, cfg):
                               'sum exp(log_w) == 1')
 
     if 'n_eff' in which and allw:
-        ok, ne = call(W, 'C02:n_eff-no-raise', lambda: S.n_eff)
+        ok, ne = exp_guarded(W, 'C02:n_eff-no-raise', lambda: S.n_eff,
+                             'n_eff')
         if ok:
             if all_inf:
                 pass
